@@ -57,6 +57,7 @@ PROPS = {
     "C07": {"theorems": props_theorems("C07") + C01_CORE + TIE_KMER, "partial": []},
     "C10": {"theorems": props_theorems("C10", "C10sched") + T("KtVerif.Props.C09", ["minimisers_eq_specRuns", "minimisers_no_placeholder"]) + TIE_MIN + TIE_LETTERS, "partial": []},
     "C09": {"theorems": props_theorems("C09", "C09b") + TIE_MIN, "partial": []},
+    "C13": {"theorems": props_theorems("C13") + C01_CORE + TIE_KMER + TIE_MIN + TIE_LETTERS, "partial": [], "needs_py": True},
     "C15": {"theorems": props_theorems("C15") + [("KtVerif.Tie.Cli", "KT.Tie.clap_ranges_documented")], "partial": [], "needs_cli": True},
     "C16": {"theorems": props_theorems("C16") + T("KtVerif.Props.C09", ["minimisers_no_placeholder"]) + T("KtVerif.Props.C05", ["batchLoop_flatten"]), "partial": [], "needs_cli": True},
     "C17": {"theorems": props_theorems("C17"), "partial": [], "needs_cli": True},
